@@ -788,6 +788,12 @@ func buildResponse(rng *rand.Rand, sc *Scenario, m methodInfo, ss serverSide, e 
 			sc.JSONErr[hx(payload)] = entry
 			endPayloadLen = len(payload)
 			body = payload
+			if (respComp == "Z" || respComp == "Y") && rng.IntN(2) == 0 {
+				// a Connect backend may compress its error body like any other unary response
+				body = compressValue(respComp, payload)
+				sethdr("Content-Encoding", respComp)
+				e.Class("resp:compressed-error-body")
+			}
 		} else {
 			sethdr("Content-Type", "application/"+codec)
 			for i := 0; i < nmsg; i++ {
@@ -1004,6 +1010,10 @@ func fillJSONErrEntry(entry *JSONEndEntry, payload []byte) {
 
 func writeOps(rng *rand.Rand, body []byte) [][]string {
 	var ops [][]string
+	if len(body) == 0 && rng.IntN(2) == 0 {
+		// a body of zero bytes: no Write call at all, or an empty one
+		return [][]string{{"write", "-"}}
+	}
 	for _, c := range splitChunks(rng, body) {
 		ops = append(ops, []string{"write", c})
 		if rng.IntN(6) == 0 {
@@ -1281,7 +1291,16 @@ func resegment(rng *rand.Rand, sc *Scenario) *Scenario {
 		b.Req.Body = splitChunks(rng, unhx(b.Req.Body[0]))
 	}
 	var script [][]string
+	seenStatus := false
 	for _, op := range b.Script {
+		if op[0] == "status" {
+			seenStatus = true
+		}
+		if op[0] == "write" && len(unhx(op[1])) == 0 && !seenStatus {
+			// an empty Write before WriteHeader sends the head with status 200: not a matter of segmentation
+			script = append(script, op)
+			continue
+		}
 		switch op[0] {
 		case "readn":
 			script = append(script, []string{"readn", op[1], fmt.Sprint(1 + rng.IntN(7))})
